@@ -329,7 +329,87 @@ def gen_cases(rng, tier, search):
         cases.append(Case({"src": src, "tape": [1, 1], "family": "V", "features": sorted(features(body))}, None,
                           tags=["V", "baseexception"]))
     cases += iter_cases(rng, tier)
+    cases += glue_cases(rng, tier)
     return cases
+
+
+# ------------------------------------------------------------------ glue stream (no Lean column)
+# what surrounds the modelled skeleton: except-clause type EXPRESSIONS (evaluated lazily, clause by clause, only until one
+# matches; an expression that raises replaces the exception), `__exit__` / `__enter__` that raise on the clean path,
+# managers whose `__exit__` raises while an exception is propagating, `finally` after each of them
+def glue_random(rng):
+    k = itertools.count(1)
+    n = lambda: next(k)  # noqa: E731
+    raised = rng.choice(["E1", "E2", "E0", None])
+    clauses = []
+    for _ in range(rng.randrange(1, 4)):
+        cls = rng.choice(["E0", "E1", "E2", "(E1, E2)", "Exception"])
+        form = rng.random()
+        if form < 0.45:
+            expr = f"TX({n()}, {cls})"            # a tracer in the clause's type expression
+        elif form < 0.6:
+            expr = f"RX({n()})"                    # the type expression itself raises E2
+        elif form < 0.7:
+            expr = "undefined_name_zz"
+        else:
+            expr = cls
+        clauses.append(expr)
+    lines = ["def f():", "    try:", f"        T({n()})"]
+    if raised:
+        lines.append(f"        raise {raised}()")
+    for e in clauses:
+        lines += [f"    except {e}:", f"        T({n()})"]
+    if rng.random() < 0.5:
+        lines += ["    finally:", f"        T({n()})"]
+    lines += [f"    return {n()}"]
+    return "\n".join(lines) + "\n"
+
+
+def glue_with_random(rng):
+    k = itertools.count(1)
+    n = lambda: next(k)  # noqa: E731
+    nm = rng.choice([1, 1, 2])
+    items = []
+    for j in range(nm):
+        exit_raises = rng.choice(["None", "None", "E2", "E1"])
+        sup = rng.choice(["False", "True"])
+        items.append(f"CMX({j + 1}, {exit_raises}, {sup})")
+    leave = rng.choice(["fall", "return", "break", "continue", "raise"])
+    body = {"fall": [f"T({n()})"], "return": [f"return {n()}"], "break": ["break"], "continue": ["continue"],
+            "raise": ["raise E1()"]}[leave]
+    lines = ["def f():", "    for _ in range(2):", f"        T({n()})", f"        with {', '.join(items)}:"] + \
+            ["            " + l for l in body] + [f"        T({n()})", "    else:", f"        T({n()})", f"    return {n()}"]
+    return "\n".join(lines) + "\n"
+
+
+GLUE_TEMPLATES = [
+    ("except-expr-lazy", "def f():\n    try:\n        raise E1()\n    except TX(1, E1):\n        T(2)\n    except TX(3, E2):\n        T(4)\n    return 5\n"),
+    ("except-expr-later-raises", "def f():\n    try:\n        raise E1()\n    except E1:\n        T(2)\n    except undefined_name_zz:\n        T(4)\n    return 5\n"),
+    ("except-expr-raises-first", "def f():\n    try:\n        raise E1()\n    except RX(1):\n        T(2)\n    except E1:\n        T(3)\n    return 5\n"),
+    ("except-expr-not-evaluated-without-exception", "def f():\n    try:\n        T(1)\n    except TX(2, E1):\n        T(3)\n    return 5\n"),
+    ("clean-exit-raises-suppressing", "def f():\n    with CMX(1, E2, True):\n        T(1)\n    return 2\n"),
+    ("clean-exit-raises-on-return", "def f():\n    with CMX(1, E2, True):\n        return 1\n    return 2\n"),
+    ("clean-exit-raises-on-break", "def f():\n    for _ in range(2):\n        with CMX(1, E2, True):\n            break\n    else:\n        T(9)\n    return 2\n"),
+    ("clean-exit-raises-outer-sees", "def f():\n    with CMX(1, None, False), CMX(2, E2, False):\n        T(1)\n    return 2\n"),
+    ("exit-raises-while-propagating", "def f():\n    with CMX(1, E2, False):\n        raise E1()\n    return 2\n"),
+]
+
+
+def glue_cases(rng, tier):
+    out, seen = [], set()
+    for name, src in GLUE_TEMPLATES:
+        out.append(Case({"src": src, "tape": [], "family": "G", "features": ["glue", name]}, None, tags=["G", "glue", name]))
+    for _ in range(160 if tier == "quick" else 2000):
+        src = glue_random(rng) if rng.random() < 0.55 else glue_with_random(rng)
+        if src in seen:
+            continue
+        seen.add(src)
+        try:
+            compile(src, "t", "exec")
+        except SyntaxError:
+            continue
+        out.append(Case({"src": src, "tape": [], "family": "G", "features": ["glue", "random"]}, None, tags=["G", "glue", "random"]))
+    return out
 
 
 # ------------------------------------------------------------------ iteration stream (no Lean column)
@@ -436,7 +516,32 @@ def make_globals(tape, log):
             log.append(f"ex{self.k}:{CLSNUM.get(t.__name__, t.__name__) if t else '-'}")
             return self.sup
 
-    return {"T": T, "T2": T2, "D": D, "CM": CM, "E0": E0, "E1": E1, "E2": E2, "B0": B0}
+    def TX(i, cls):
+        """a tracer inside an except clause's type expression"""
+        log.append(f"T{i}")
+        return cls
+
+    def RX(i):
+        log.append(f"T{i}")
+        raise E2()
+
+    class CMX:
+        """a manager whose __exit__ raises er (when given), whatever it is called with"""
+        def __init__(self, k, er, sup):
+            self.k, self.er, self.sup = k, er, sup
+            log.append(f"in{k}")
+
+        def __enter__(self):
+            log.append(f"en{self.k}")
+            return self
+
+        def __exit__(self, t, v, tb):
+            log.append(f"ex{self.k}:{CLSNUM.get(t.__name__, t.__name__) if t else '-'}")
+            if self.er is not None:
+                raise self.er()
+            return self.sup
+
+    return {"T": T, "T2": T2, "TX": TX, "RX": RX, "CMX": CMX, "D": D, "CM": CM, "E0": E0, "E1": E1, "E2": E2, "B0": B0}
 
 
 def canon_exc(e):
